@@ -389,8 +389,9 @@ class C02(Property):
         "cartesian key/suffix slices -> SFV/Gen/CombGuards.lean)",
         "modelled, not verified: dict insertion order, deque append/pop, itertools.product order, `dict |= dict` on disjoint keys, "
         "str.split('.')/join — each exercised by the correspondence check on every run",
-        "nested combinators (outer dot product over an inner dot/cartesian product) are modelled and compared with the code but have no "
-        "theorem: there the correspondence check and the monitor (composition of the two specifications) are the only evidence",
+        "nested combinators (outer dot product over an inner dot/cartesian product): only the outer level is proved "
+        "(nested_any_order_partial, on the derived element stream); the composition with the inner theorems rests on the correspondence "
+        "check and the monitor (composition of the two specifications)",
     ]
     technique = ("Lean 4 theorems about the loop-faithful executable model (dot product: loop = closed form + order-independence invariant + "
                  "emitted values; cartesian product: product algebra up to permutation + 'emitted so far = all configurations' invariant; "
@@ -401,11 +402,11 @@ class C02(Property):
                   "port (values included); the cartesian product (any depth >= 1) emits exactly the cross product per key with the composite "
                   "tags; both proved about the loop-faithful model the driver runs. The full-strength statements without well-formedness are "
                   "proved false by witnesses that reproduce on the real classes (known findings: order dependence, IndexError, mixed "
-                  "depths). Nested combinators (depth-2 trees): modelled, correspondence + monitor only (no theorem); a cartesian product "
-                  "over an inner combinator crashes on the real class (known finding)")
+                  "depths). Nested combinators (depth-2 trees): outer level proved (nested_any_order_partial), composition checked by correspondence "
+                  "+ monitor only; a cartesian product over an inner combinator crashes on the real class (known finding)")
     level_note = ("Lean kernel, axioms within {propext, Classical.choice, Quot.sound}; theorems are about the Lean models in SFV/Model/Comb.lean "
                   "(loop-faithful) and SFV/Lemmas/Comb*.lean (closed form); the tie to the Python classes is the translator of the guards plus "
-                  "the correspondence check of emission sequences; nested combinators are covered by correspondence and monitor only")
+                  "the correspondence check of emission sequences; for nested combinators only the outer level has a theorem")
     assumptions = ["tags are dotted decimals rooted at 0; per port the tags are distinct and no tag is a prefix of another (dot), all tags have "
                    "the same depth >= the combinator depth (cartesian); ports of different items are disjoint; combinator depth >= 1"]
     quick_budget_s = 200
